@@ -372,9 +372,20 @@ def link(state, address: int) -> bytes:
     return b""
 
 
+# Files that include one another without '.once' would otherwise go on until
+# Python's recursion limit is hit
+MAX_INCLUDE_DEPTH = 16
+
+
 @metacommand(size=0)
 def include(state, included_file_path: str):
     include_path = devices.resolve_relative_path(included_file_path, state["filename"])
+
+    if state["compiler"].include_depth >= MAX_INCLUDE_DEPTH:
+        reports.critical(
+            "recursive-include",
+            (state["insn"].ctx_start, state["insn"].ctx_end, f"Files are included more than {MAX_INCLUDE_DEPTH} levels deep here.\nDoes '{include_path}' include itself, directly or through other files? Start it with '.once' if it is meant to be included only once.")
+        )
 
     try:
         with open(include_path, "r") as f:
